@@ -189,6 +189,7 @@ STRUCT_LINES = [
     b"X-A: 1", b"X-A : 1", b"Content-Length : 5", b"Transfer-Encoding : chunked", b"content-length: 5",
     b"Content_Length: 5", b"Content-Length\x00: 5", b" Content-Length: 5", b"Transfer-Encoding: chunked, chunked",
     b"Transfer-Encoding:\x0bchunked", b"Content-Type: a", b"Upgrade: websocket", b"Connection: upgrade",
+    b"Transfer-Encoding:", b"Transfer-Encoding: \t", b"Transfer-Encoding: ,", b"Content-Length:", b"Content-Length: ,",
 ]
 
 
@@ -497,6 +498,23 @@ def hostile_number_streams():
     yield "header-nonascii-name", b"GET / HTTP/1.1\r\nHost: a\r\nX-\xff\xfe: v\r\n\r\n"
     yield "method-nonascii", b"G\xffT / HTTP/1.1\r\nHost: a\r\n\r\n"
     yield "version-nonascii", b"GET / HTTP/1.\xff\r\nHost: a\r\n\r\n"
+
+
+def folded_streams(mfs: int):
+    """Responses (the lax parser accepts obsolete line folding) whose field or trailer is folded over several
+    continuation lines: every line fits together with the first one, the field as a whole is `expect`ed to be
+    rejected (well above max_field_size) or accepted (well below).  (label, stream, expect)"""
+    ok = b"HTTP/1.1 200 OK\r\n"
+    for nlines in (2, 3, 5):
+        for total, expect in ((mfs * 2, "reject"), (mfs // 2, "accept")):
+            piece = max(1, total // (nlines + 1))
+            if 2 * piece + 8 > mfs:
+                continue            # a single continuation must still fit next to the first line
+            first = b"X-F: " + b"a" * piece
+            conts = b"".join(b"\r\n " + bytes([98 + i]) * piece for i in range(nlines))
+            yield (f"resp-folded{nlines}-{expect}", ok + first + conts + b"\r\nContent-Length: 1\r\n\r\nx", expect)
+            yield (f"resp-trailer-folded{nlines}-{expect}",
+                   ok + b"Transfer-Encoding: chunked\r\n\r\n1\r\nx\r\n0\r\n" + first + conts + b"\r\n\r\n", expect)
 
 
 def unterminated_streams(mls: int, mfs: int):
